@@ -113,7 +113,7 @@ InitDefs ==
         <<Def("txt", "k0", {}, {}), Def("fg", "k0", {"f1"}, {1}), Def("cat", "k0", {"f2"}, {2})>>,
         <<Def("const", "k0", {"f1"}, {}), Def("cat", "k0", {"f1", "f2"}, {}), Def("fg", "k0", {}, {1, 2})>>}
 EditKinds == IF Shapes = "dirflaw" THEN {} ELSE {"cat", "const", "fg"}
-Reqs == {{3}, {2}}
+Reqs == IF Shapes = "all-top" THEN {{3}} ELSE {{3}, {2}}
 
 Init == /\ src = [f \in F |-> "c0"] /\ defs \in InitDefs
         /\ out = [t \in T |-> Nil] /\ cache = {} /\ executed = {} /\ edits = 0
@@ -145,9 +145,11 @@ DeleteOut == /\ \E t \in T : out[t] # Nil
 \* the state <<definition, input contents>> that C03 compares between builds
 Cur(t) == <<defs[t], Inputs(src, defs, t)>>
 LastReq == IF hist[Len(hist)].act = "Build" THEN hist[Len(hist)].req ELSE {}
+PrevReq == IF Len(hist) >= 2 /\ hist[Len(hist) - 1].act = "Build" THEN hist[Len(hist) - 1].req ELSE {}
 Build(R) ==
-  /\ LastReq # R
-  /\ Len(SelectSeq(hist, LAMBDA h : h.act = "Build")) <= MaxEdits + 1
+  \* a no-op rebuild of the same set is allowed once (C03), never three identical builds in a row
+  /\ ~(LastReq = R /\ Len(hist) >= 2 /\ hist[Len(hist) - 1].act = "Build" /\ PrevReq = R)
+  /\ Len(SelectSeq(hist, LAMBDA h : h.act = "Build")) <= MaxEdits + 2
   /\ LET cl == ClosureOf(defs, R)
          s1 == IF 1 \in cl THEN BuildOne(out, {}, cache, 1) ELSE <<out, {}, cache>>
          s2 == IF 2 \in cl THEN BuildOne(s1[1], s1[2], s1[3], 2) ELSE s1
@@ -176,7 +178,12 @@ C02 == \A e1, e2 \in cache : (e1.t = e2.t /\ e1.def = e2.def /\ e1.inH = e2.inH)
 C03 == LastIsBuild => executed \subseteq LastBuild.mayRun
 NoOp == (LastIsBuild /\ Len(hist) >= 2 /\ hist[Len(hist) - 1].act = "Build"
          /\ LastBuild.closure \subseteq hist[Len(hist) - 1].closure) => executed = {}
-View == <<src, defs, out, cache, executed, edits, LastIsBuild, IF LastIsBuild THEN LastBuild.req ELSE {}>>
+View == <<src, defs, out, cache, executed, edits, LastIsBuild, LastReq, PrevReq>>
+\* a view that keeps every distinct history apart (used for the exhaustive one-edit configuration: a no-op rebuild
+\* leaves the model's state unchanged but may leave hidden state in the real system, so it must not be deduplicated)
+StepSig(h) == IF h.act = "Build" THEN <<"B", h.req>> ELSE IF h.act = "EditFile" THEN <<"F", h.f, h.c>>
+              ELSE IF h.act = "EditDef" THEN <<"D", h.t, h.def>> ELSE <<h.act>>
+HistView == <<View, [i \in 1..Len(hist) |-> StepSig(hist[i])]>>
 \* history emission for replay into the real binary
 Maximal == edits = MaxEdits
 EmitHist == (LastIsBuild /\ (EmitAll \/ Maximal)) =>
